@@ -275,9 +275,8 @@ Proof.
       with (length (skipn j1 (toks s b1)) + (length (flat_map (toks s) (firstn m R)) + S j2))%nat
       by (rewrite skipn_length; lia).
     change (fun x => b_toks (bget (s_heap s) x)) with (toks s).
-    rewrite firstn_app_2. f_equal.
-    rewrite (flat_split (toks s) R m b2 Hm), firstn_app_2. f_equal.
-    rewrite firstn_app. replace (S j2 - length (toks s b2))%nat with 0%nat by lia. cbn [firstn]. apply app_nil_r.
+    rewrite firstn_app_2. apply f_equal. apply (f_equal (app _)).
+    rewrite (flat_firstn_at (toks s) R m b2 (S j2) Hm) by lia. reflexivity.
 Qed.
 
 End Obs.
